@@ -23,7 +23,8 @@ use vcore::workers::CaseEngine;
 
 pub struct C07;
 
-const EXTREMES: [u64; 14] = [0, 1, 2, 3, 7, 8, 15, 16, 17, 1 << 31, 1 << 40, (1 << 63) - 1, 1 << 63, u64::MAX];
+// the last four are small negative numbers when a length is (mis)used as a signed offset
+const EXTREMES: [u64; 18] = [0, 1, 2, 3, 7, 8, 15, 16, 17, 1 << 31, 1 << 40, (1 << 63) - 1, 1 << 63, u64::MAX, u64::MAX - 7, u64::MAX - 15, u64::MAX - 23, u64::MAX - 31];
 
 /// offsets of the record headers of a well-formed data file
 fn headers(data: &[u8]) -> Vec<usize> {
@@ -211,14 +212,14 @@ impl CaseEngine for C07 {
         if frames.is_empty() || frames.iter().any(|f| f.contains("vcore::dump::")) {
             return None;
         }
-        let f = frames.iter().find(|f| f.contains("agdb::"))?;
-        // drop generic parameters and closures: stable across builds
-        let f = f.split('<').next().unwrap_or(f).trim_end_matches("::").to_string();
-        Some(format!("open_does_not_return:{f}"))
+        // the outermost agdb frame: the call the harness made (FileStorage::new, DbImpl::with_data, Db::new, ...)
+        let f = frames.iter().rev().find(|f| f.contains("agdb::"))?;
+        let extended = _progress.contains("extended=true");
+        Some(format!("open_does_not_return:{f}{}", if extended { ":after_recovery_extended_the_file_enormously" } else { "" }))
     }
     fn case_timeout_s(&self, _args: &Args) -> u64 {
         // "no progress line for N seconds": progress is emitted per mutant and variant, a mutant takes milliseconds
-        15
+        90
     }
     fn run_case(&self, args: &Args, case: usize, rep: &mut Report, progress: &dyn Fn(&str)) {
         let seed = derive(args.u64("seed", 1), &[tag("C07"), case as u64]);
@@ -266,7 +267,11 @@ impl CaseEngine for C07 {
                     let ctl = vcore::wrap::Ctl::new();
                     ctl.budget.store(2_000_000, std::sync::atomic::Ordering::Relaxed);
                     let mut in_open = false;
+                    let mut len_after_recovery = 0u64;
                     if let Ok(f) = <agdb::FileStorage as agdb::StorageData>::new(&p) {
+                        len_after_recovery = <agdb::FileStorage as agdb::StorageData>::len(&f);
+                        // for the hang classifier: did write-ahead-log recovery blow the file up?
+                        progress(&format!("{dop}+{wop} variant=prescreen_recovered mutant={i} extended={}", len_after_recovery > 64 * (m.data.len() as u64 + 1024)));
                         let db = agdb::DbImpl::with_data(vcore::wrap::MonStorage::wrap(f, ctl.clone()));
                         in_open = ctl.budget_hit.load(std::sync::atomic::Ordering::Relaxed) > 0;
                         if let Ok(db) = db {
@@ -274,18 +279,20 @@ impl CaseEngine for C07 {
                         }
                     }
                     let frame = ctl.budget_hit_frame.lock().ok().and_then(|f| f.clone()).unwrap_or_default();
-                    (in_open, ctl.budget_hit.load(std::sync::atomic::Ordering::Relaxed) > 0, frame)
+                    (in_open, ctl.budget_hit.load(std::sync::atomic::Ordering::Relaxed) > 0, frame, len_after_recovery)
                 });
                 vcore::alloccap::REFUSED.store(0, std::sync::atomic::Ordering::SeqCst);
-                if let Ok((in_open, true, frame)) = &spins {
+                if let Ok((in_open, true, frame, len_after_recovery)) = &spins {
                     rep.count("mutants_skipped_step_budget_exceeded");
                     if *in_open {
                         // "opening ... either succeeds or returns an error": 2 million storage calls for a file of a few KiB is neither
-                        let sig = format!("C07:open_exceeds_the_step_budget:{frame}");
+                        // write-ahead-log recovery may have blown the file up to a huge sparse size which is then walked record by record
+                        let extended = *len_after_recovery > 64 * (m.data.len() as u64 + 1024);
+                        let sig = format!("C07:open_exceeds_the_step_budget:{frame}{}", if extended { ":after_recovery_extended_the_file_enormously" } else { "" });
                         if fired.insert(sig.clone()) {
                             rep.violation(
                                 &sig,
-                                &format!("{dop}+{wop}: opening a damaged file of {} bytes issued more than 2,000,000 storage calls without returning (loop in {frame})", m.data.len()),
+                                &format!("{dop}+{wop}: opening a damaged file of {} bytes issued more than 2,000,000 storage calls without returning (loop in {frame}; file length after write-ahead-log recovery: {len_after_recovery})", m.data.len()),
                                 json!({"engine":"c07","case":case,"seed":args.u64("seed",1),"tier":args.str("tier","quick"),"variant":"prescreen",
                                        "data_operator":dop,"wal_operator":wop,"data_hex":hex(&m.data),"wal_hex":hex(&m.wal)}),
                             );
